@@ -421,6 +421,16 @@ def _framing(ctx):
     filtered = any(len(c.generators) == 1 and c.generators[0].ifs and norm(c.generators[0].ifs[0]) in (
         norm(c.generators[0].target), '%s.strip()' % norm(c.generators[0].target), 'len(%s) > 0' % norm(c.generators[0].target))
         and norm(c.elt) == norm(c.generators[0].target) for c in comps)
+    if not filtered:
+        # the same filter spelled as a loop: for g in GRID_SEP.split(..): if g: pieces.append(g)
+        for lp in [n for n in ast.walk(pp) if isinstance(n, ast.For) and 'GRID_SEP.split(' in norm(n.iter) and isinstance(n.target, ast.Name)]:
+            v_ = lp.target.id
+            if len(lp.body) == 1 and isinstance(lp.body[0], ast.If) and not lp.body[0].orelse \
+                    and norm(lp.body[0].test) in (v_, '%s.strip()' % v_, 'len(%s) > 0' % v_) and len(lp.body[0].body) == 1 \
+                    and isinstance(lp.body[0].body[0], ast.Expr) and isinstance(lp.body[0].body[0].value, ast.Call) \
+                    and isinstance(lp.body[0].body[0].value.func, ast.Attribute) and lp.body[0].body[0].value.func.attr == 'append' \
+                    and [norm(a) for a in lp.body[0].body[0].value.args] == [v_]:
+                filtered = True
     if filtered:
         ctx.ob('C03.D3', 'empty pieces are dropped: empty input holds no grid', True, where)
     elif 'GRID_SEP.split' in text:
